@@ -171,6 +171,8 @@ def snapshot(root, content=True):
                         h.update(chunk)
                 dig = h.hexdigest()
             out[rel] = ("file", st.st_size, dig, stat.S_IMODE(st.st_mode))
+        elif stat.S_ISLNK(st.st_mode):
+            out[rel] = ("symlink", st.st_size, os.readlink(path), stat.S_IMODE(st.st_mode))
         else:
             out[rel] = ("other", st.st_size, None, stat.S_IMODE(st.st_mode))
 
